@@ -24,7 +24,7 @@ theorem scen_reserve {c : Cfg} (x : Exec c) (n0 : Nat) (hf : Fair x n0) :
     · simp [step, stepWith, hc] at hs
   · intro s s' l g g' hc hh hr hs
     right
-    exact ⟨by rw [frame_nonStop hh g.called hs]; exact hc, Nat.le_refl _⟩
+    exact ⟨by rw [frame_nonStop hh hr hs]; exact hc, Nat.le_refl _⟩
 
 /-- the marker has its ticket and there is room for it -/
 theorem scen_publish {c : Cfg} (x : Exec c) (n0 : Nat) (hf : Fair x n0) :
@@ -48,7 +48,7 @@ theorem scen_publish {c : Cfg} (x : Exec c) (n0 : Nat) (hf : Fair x n0) :
     · simp [step, stepWith, hk] at hs
   · intro s s' l g g' ⟨k, hk, hroom⟩ hh hr hs
     right
-    refine ⟨⟨k, by rw [frame_nonStop hh g.called hs]; exact hk, ?_⟩, Nat.le_refl _⟩
+    refine ⟨⟨k, by rw [frame_nonStop hh hr hs]; exact hk, ?_⟩, Nat.le_refl _⟩
     have := popIdx_mono hs
     omega
 
@@ -68,12 +68,13 @@ theorem scen_join {c : Cfg} (x : Exec c) (n0 : Nat) (hf : Fair x n0) :
     · simp [step, stepWith, h1] at hs
     · simp only [step, stepWith, h1, h2] at hs
       simp at hs; subst hs
-      simp [mu, stopRank, h1, h2]
+      simp [mu, stopRank, h1, h2, collActive]
   · intro s s' l g g' ⟨h1, h2⟩ hh hr hs
     right
-    refine ⟨⟨by rw [frame_nonStop hh g.called hs]; exact h1, ?_⟩, Nat.le_refl _⟩
+    refine ⟨⟨by rw [frame_nonStop hh hr hs]; exact h1, ?_⟩, Nat.le_refl _⟩
     cases hc : l.isColl with
     | true => exact absurd h2 (coll_not_done hc hs)
-    | false => rw [(frame_nonColl hc hs).1]; exact h2
+    | false =>
+      rw [(frame_nonColl hc (by intro h; subst h; cases hr) (by intro h; subst h; cases hh) hs).1]; exact h2
 
 end Babylon.GC
